@@ -213,7 +213,7 @@ class VhdSuite(Suite):
                 elif kind == "raw":
                     model = f"Ok (fixed_read {Z(case['size'])} {Z(a)} {Z(b)})"
                 else:
-                    model = "Err"   # unused
+                    model = "(@Err (list seg))"   # unused
                 items.append(f"({model}, {spec})")
             return "[" + "; ".join(items) + "]"
         ent = [(i, v) for i, v in enumerate(case["bat_raw"]) if v != 0xFFFFFFFF]
@@ -228,7 +228,7 @@ class VhdSuite(Suite):
             elif kind == "raw":
                 model = f"dyn_read d (fuel_for {Z(b // SECTOR + 1)}) {Z(a)} {Z(b)}"
             else:
-                model = "Err"
+                model = "(@Err (list seg))"
             items.append(f"({model}, {spec})")
         return f"let d := {d} in [" + "; ".join(items) + "]"
 
